@@ -73,14 +73,16 @@ theorem padded_length (buf : B) (pos : Nat) :
 
 /-- `write`: same result, related states. -/
 theorem write_refines_gen (al : Nat) (hal : 0 < al) (a : ACur) (s : SCur) (b : B)
-    (hR : R al a s) (hle : s.pos + b.length ≤ usizeMax) :
+    (hR : R al a s) (hle : s.pos + b.length ≤ Cur.isizeMax) :
     (a.write al b).2 = (s.write b).2 ∧ (a.write al b).2 = .wrote b.length ∧ R al (a.write al b).1 (s.write b).1 := by
   obtain ⟨hpos, hlen, hdata, hcap, hunits⟩ := hR
   have hmin : min b.length (usizeMax - a.pos) = b.length := by
-    rw [hpos]; omega
+    rw [hpos]; unfold usizeMax; unfold Cur.isizeMax at hle; omega
   simp only [ACur.write, SCur.write, hmin]
   have h1 : ¬ (b.length ≠ 0 ∧ b.length = 0) := by omega
-  rw [if_neg h1, if_neg (Nat.lt_irrefl _)]
+  have h2 : ¬ (Cur.isizeMax < a.pos + b.length) := by rw [hpos]; omega
+  have h3 : ¬ (Cur.isizeMax < s.pos + b.length) := by omega
+  rw [if_neg h1, if_neg h2, if_neg (Nat.lt_irrefl _), if_neg h3]
   refine ⟨rfl, rfl, ?_⟩
   have hvl := padded_length s.buf s.pos
   refine ⟨by simp [hpos], ?_, ?_, ?_, ?_⟩
@@ -119,11 +121,11 @@ theorem write_refines_gen (al : Nat) (hal : 0 < al) (a : ACur) (s : SCur) (b : B
 theorem write_refines (al : Nat) (hal : 0 < al) (a : ACur) (s : SCur) (b : B)
     (hR : R al a s) (hg : Guard s) (ho : b.length < 2^62) :
     (a.write al b).2 = (s.write b).2 ∧ (a.write al b).2 = .wrote b.length ∧ R al (a.write al b).1 (s.write b).1 :=
-  write_refines_gen al hal a s b hR (by have := hg.1; unfold usizeMax; omega)
+  write_refines_gen al hal a s b hR (by have := hg.1; unfold Cur.isizeMax; omega)
 
 /-- the loop of `write_vectored`: same count, related states, as long as the end stays below `usize::MAX` -/
 theorem writeMany_refines (al : Nat) (hal : 0 < al) : ∀ (bufs : List B) (a : ACur) (s : SCur) (acc : Nat),
-    R al a s → s.pos + bufs.flatten.length ≤ usizeMax →
+    R al a s → s.pos + bufs.flatten.length ≤ Cur.isizeMax →
     (ACur.writeMany al a bufs acc).2 = (SCur.writeMany s bufs acc).2
       ∧ R al (ACur.writeMany al a bufs acc).1 (SCur.writeMany s bufs acc).1
   | [], a, s, acc, hR, _ => ⟨rfl, hR⟩
@@ -131,7 +133,9 @@ theorem writeMany_refines (al : Nat) (hal : 0 < al) : ∀ (bufs : List B) (a : A
       simp only [List.flatten_cons, List.length_append] at hle
       obtain ⟨h1, h2, h3⟩ := write_refines_gen al hal a s b hR (by omega)
       have hs : (s.write b).2 = .wrote b.length := by rw [← h1, h2]
-      have hp : (s.write b).1.pos = s.pos + b.length := rfl
+      have hp : (s.write b).1.pos = s.pos + b.length := by
+        have : ¬ (Cur.isizeMax < s.pos + b.length) := by omega
+        simp only [SCur.write, if_neg this]
       simp only [ACur.writeMany, SCur.writeMany]
       generalize hwa : a.write al b = wa at h1 h2 h3
       generalize hws : s.write b = ws at h1 hs h3 hp
@@ -234,23 +238,31 @@ theorem step_refines (al : Nat) (hal : 0 < al) (a : ACur) (s : SCur) (op : Op)
   | writeAll b =>
     simp only [SmallOp] at ho
     obtain ⟨h1, h2, h3⟩ := write_refines al hal a s b hR0 hg ho
+    have hs : (s.write b).2 = .wrote b.length := by rw [← h1, h2]
     simp only [ACur.step, SCur.step]
     generalize hw : a.write al b = w at h2 h3
+    generalize hws : s.write b = ws at hs h3
     obtain ⟨a', o⟩ := w
-    simp only at h2 h3
-    subst h2
+    obtain ⟨s', os⟩ := ws
+    simp only at h2 h3 hs
+    subst h2; subst hs
     exact ⟨rfl, h3⟩
   | writeV bufs =>
     simp only [SmallOp] at ho
     obtain ⟨h1, h2, h3⟩ := write_refines al hal a s [] hR0 hg (by simp)
-    have hp : (s.write []).1.pos = s.pos := by simp [SCur.write]
+    have hs : (s.write []).2 = .wrote 0 := by rw [← h1, h2]; rfl
+    have hp : (s.write []).1.pos = s.pos := by
+      have : ¬ (Cur.isizeMax < s.pos + ([] : B).length) := by have := hg.1; unfold Cur.isizeMax; simp; omega
+      simp only [SCur.write, if_neg this]; simp
     simp only [ACur.step, SCur.step]
     generalize hw : a.write al [] = w at h2 h3
+    generalize hws : s.write [] = ws at hs h3 hp
     obtain ⟨a', o⟩ := w
-    simp only at h2 h3
-    subst h2
+    obtain ⟨s', os⟩ := ws
+    simp only at h2 h3 hs hp
+    subst h2; subst hs
     simp only [List.length_nil]
-    exact writeMany_refines al hal bufs a' _ 0 h3 (by rw [hp]; have := hg.1; unfold usizeMax; omega)
+    exact writeMany_refines al hal bufs a' s' 0 h3 (by rw [hp]; have := hg.1; unfold Cur.isizeMax; omega)
   | readV ns => exact readMany_refines al ns a s [] hR0
 
 /-- the guard holds at every state the specification goes through -/
@@ -313,11 +325,12 @@ theorem gap_zero_filled (al : Nat) (hal : 0 < al) (p : Nat) (b : B) (hp : p < 2^
     refine ⟨⟨by simp [SCur.init], by simp [SCur.init]⟩, hp, ⟨by simpa [SCur.step, SCur.init] using hp, by simp [SCur.step, SCur.init]⟩, hb, trivial⟩
   have := (cursor_refines al hal _ hg).2.1
   rw [this]
+  have hni : ¬ (Cur.isizeMax < p + b.length) := by unfold Cur.isizeMax; omega
   simp only [SCur.run, SCur.step, SCur.write, SCur.init]
   by_cases h0 : p = 0
-  · subst h0; simp [zeros]
+  · subst h0; simp only [Nat.zero_add] at hni; simp [zeros, hni]
   · have hp0 : 0 < p := by omega
-    simp [zeros, hp0]
+    simp [zeros, hp0, hni]
 
 /-- The two corners in which the provided methods of `Read` / `Write` would differ from the standard cursor (and did,
     before `5b3f044`): a failed `read_exact` moves the position to the end of the data even from beyond it, and
@@ -333,11 +346,26 @@ theorem writeAll_empty_fills_gap (al : Nat) (hal : 0 < al) (p : Nat) (hp : p < 2
     refine ⟨⟨by simp [SCur.init], by simp [SCur.init]⟩, hp, ⟨by simpa [SCur.step, SCur.init] using hp, by simp [SCur.step, SCur.init]⟩, by simp [SmallOp], trivial⟩
   have := (cursor_refines al hal _ hg).2.1
   rw [this]
+  have hni : ¬ (Cur.isizeMax < p) := by unfold Cur.isizeMax; omega
   simp only [SCur.run, SCur.step, SCur.write, SCur.init]
   by_cases h0 : p = 0
-  · subst h0; simp [zeros]
+  · subst h0; simp [zeros, hni]
   · have hp0 : 0 < p := by omega
-    simp [zeros, hp0]
+    simp [zeros, hp0, hni]
+
+/-- **Beyond `isize::MAX`** (round 11): a write that would end above `isize::MAX` bytes panics in both cursors ("capacity
+    overflow") and leaves both exactly as they were — nothing is updated before the storage has grown. -/
+theorem write_beyond_isize_max (al : Nat) (a : ACur) (s : SCur) (b : B) (hR : R al a s)
+    (hbig : Cur.isizeMax < s.pos + b.length) (hfit : s.pos + b.length ≤ usizeMax) :
+    a.write al b = (a, .panic) ∧ s.write b = (s, .panic) := by
+  have hpos := hR.pos
+  have hmin : min b.length (usizeMax - a.pos) = b.length := by rw [hpos]; omega
+  constructor
+  · simp only [ACur.write, hmin]
+    by_cases h0 : b.length ≠ 0 ∧ b.length = 0
+    · omega
+    · rw [if_neg h0, if_pos (by rw [hpos]; exact hbig)]
+  · simp only [SCur.write, if_pos hbig]
 
 example : (ACur.run 16 ACur.init [.write [1, 2, 3], .setPos 9, .readExact 1, .writeAll [], .setPos 1, .readToEnd]).2 =
     [.wrote 3, .unit, .eof, .unit, .unit, .bytes [2, 3]] := by decide
